@@ -1876,6 +1876,18 @@ def c16_random(run, Nmax=3, samples=40, n1=4800, n2=36000):
     chi = sum((c - exp) ** 2 / exp for c in counts.values()) + (24 - len(counts)) * exp
     if len(counts) != 24 or chi > 23 + 8 * np.sqrt(2 * 23):
         b.fail('uniform_N1', 'random_clifford_map(1): %d of 24 elements seen, chi2 = %.1f (df 23)' % (len(counts), chi), {'counts': sorted(counts.values())})
+    # random_pauli(2): the two sites are sampled independently - joint uniformity over the 6 x 6 pairs of single-qubit symplectic classes
+    counts = {}
+    n_rp = max(3600, n1)
+    for _ in range(n_rp):
+        gsr = pu.random_pauli(2)
+        key = tuple(int(x) for x in gsr[0:2, 0:2].ravel()) + tuple(int(x) for x in gsr[2:4, 2:4].ravel())
+        counts[key] = counts.get(key, 0) + 1
+    b.case(sample={'uniformity': 'random_pauli(2), joint', 'classes_seen': len(counts)})
+    exp = n_rp / 36.0
+    chi = sum((c - exp) ** 2 / exp for c in counts.values()) + (36 - len(counts)) * exp
+    if len(counts) != 36 or chi > 35 + 8 * np.sqrt(2 * 35):
+        b.fail('uniform_random_pauli', 'random_pauli(2): %d of 36 pairs of single-qubit classes seen, chi2 = %.1f (df 35): the sites are not sampled independently and uniformly' % (len(counts), chi), {'classes': len(counts)})
     # uniformity N = 2 (720 symplectic classes) and entangling
     counts = {}
     ent = 0
